@@ -2,6 +2,7 @@ package main
 
 import (
 	"fmt"
+	"regexp"
 	"regexp/syntax"
 	"sort"
 	"strings"
@@ -721,6 +722,8 @@ func runC14(c *Ctx) {
 
 	ruleOptsPointerFresh(c)
 	ruleXtextDecodesEveryPlus(c)
+	rulePathBytesPassThrough(c)
+	ruleZeroOptions(c)
 
 	R.Rule("R-field-key", "E8+E4 pairing", "the client renders each option field under the key the server stores it from; NOTIFY separator, RRVS layout and the unitext/xtext choice agree", 10)
 	pairs := []struct{ fn, token, source string }{
@@ -792,6 +795,20 @@ func runC14(c *Ctx) {
 		for _, w := range builderWrites(f) {
 			if w.konst == "," {
 				comma = true
+				// ... between elements: written for every element but the first
+				idx := 0
+				var others []string
+				for a := range c.F.Analyze(f).At(w.in) {
+					if !strings.Contains(a, "loopvar:rangeindex") || strings.Contains(a, "< builtin:len(") {
+						continue
+					}
+					if regexp.MustCompile(`^\(loopvar:rangeindex@[^ ]+ \+ 1\) (!= 0|> 0)$`).MatchString(a) {
+						idx++
+					} else {
+						others = append(others, a)
+					}
+				}
+				R.Ob(c.siteKey(w.in, "NOTIFY separator written for every element but the first"), c.P.InstrPos(w.in), idx == 1 && len(others) == 0, fmt.Sprintf("the ',' between NOTIFY elements is guarded by %v instead of index != 0: two elements run together or a list starts with ','", others))
 			}
 		}
 		srvSplit := false
@@ -886,5 +903,46 @@ func ruleRenderVerbatim(c *Ctx) {
 			ok := isConst && format == "%s" && len(args) == 1 && strings.HasPrefix(describe(args[0]), "(*strings.Builder).String(")
 			R.Ob(c.siteKey(site, "line sent as operand of \"%s\""), c.P.InstrPos(site), ok, "the command line is sent with format "+describe(cc.Args[2])+": characters such as '%' in values are not transmitted unchanged")
 		}
+	}
+}
+
+// ruleZeroOptions (C14, C15): an option left at its zero value is "not given": it adds no parameter to the command
+// and cannot make the call fail, whatever the server advertised.
+func ruleZeroOptions(c *Ctx) {
+	R := c.R
+	R.Rule("R-zero-options", "E3 edge-feasibility", "with every option field at its zero value Mail/Rcpt return no locally generated error and write no parameter besides the address (and BODY=8BITMIME)", 8)
+	for _, x := range []struct {
+		fn   string
+		H    []string
+		base []string
+	}{
+		{"(*Client).Mail", []string{`MailOptions.RequireTLS == false`, `MailOptions.UTF8 == false`, `MailOptions.Return == ""`, `MailOptions.EnvelopeID == ""`, `MailOptions.Size == 0`, `MailOptions.Auth == nil`}, []string{"MAIL FROM:<%s>", " BODY=8BITMIME"}},
+		{"(*Client).Rcpt", []string{`builtin:len(RcptOptions.Notify) == 0`, `RcptOptions.OriginalRecipient == ""`, `(time.Time).IsZero(RcptOptions.RequireRecipientValidSince) == true`}, []string{"RCPT TO:<%s>"}},
+	} {
+		f := c.A.Func(x.fn)
+		if f == nil {
+			continue
+		}
+		n := 0
+		allInstrs(f, func(in ssa.Instruction) {
+			if isStaticCall(in, "errors.New") || isStaticCall(in, "fmt.Errorf") {
+				n++
+				c.obUnreach("locally generated error", in, x.H...)
+			}
+		})
+		for _, w := range builderWrites(f) {
+			isBase := false
+			for _, b := range x.base {
+				if w.konst == b {
+					isBase = true
+				}
+			}
+			if isBase {
+				continue
+			}
+			n++
+			c.obUnreach("parameter "+strings.TrimSpace(w.konst), w.in, x.H...)
+		}
+		R.Ob(x.fn+"/option sites found", c.P.Pos(f.Pos()), n >= 5, fmt.Sprintf("%d sites", n))
 	}
 }
